@@ -23,11 +23,22 @@ LEVEL_NOTE = "Trusted: vlib/ref/abnf.py and typecheck.py (self-test + triangulat
 examine = accept.examine_accept
 
 
+
+def _with_interpreter_variants(specs, tier, n_small, extra=None):
+    """The same shard body in child interpreters started with other flags / environment variables."""
+    from vlib.runner import INTERPRETERS
+    base = dict(extra or {})
+    for name in INTERPRETERS:
+        s = dict(base, n=n_small if tier == "quick" else n_small * 6, interp=name)
+        specs.append(s)
+    return specs
+
+
 def plan(tier, seed):
     if tier == "quick":
-        return [{"n": 800} for _ in range(16)]
+        return _with_interpreter_variants([{"n": 800} for _ in range(16)], tier, 120)
     import os
-    return [{"n": 15000} for _ in range(16)] + [
+    return _with_interpreter_variants([{"n": 15000} for _ in range(16)], tier, 120) + [
         {"mode": "atheris", "runs": int(os.environ.get("VERIF_ATHERIS_RUNS", "600000")), "corpus": "seeded" if i % 2 == 0 else "empty", "idx": i}
         for i in range(4)]
 
